@@ -344,12 +344,12 @@ def _is_int(x):
 
 def oracle_vector(counts, vals, is_diff):
     """Respondent-level statistics of one vector from its reported (non-negative) counts.
-    Returns dict(mean, var, median (None unless integer counts), n_valued, zero_after_half)."""
+    Returns dict(total, mean, var, median (None unless integer counts; "nan" for nobody))."""
     pairs = [(v, Fraction(c)) for v, c in zip(vals, counts) if v is not None and c == c]
     if is_diff or any(c != c for v, c in zip(vals, counts) if v is not None):
         return None
     tot = sum(c for _v, c in pairs)
-    res = {"total": tot, "mean": "nan", "var": "nan", "median": None, "zero_after_half": False}
+    res = {"total": tot, "mean": "nan", "var": "nan", "median": None}
     if any(c < 0 for _v, c in pairs):
         return None
     if tot > 0:
@@ -361,14 +361,6 @@ def oracle_vector(counts, vals, is_diff):
         for v, c in pairs:
             expanded.extend([v] * int(c))
         res["median"] = statistics.median(expanded) if expanded else "nan"
-        # is there a category with zero count right after an exact 50 % point (in the
-        # order the library sorts the values)?
-        order = sort_order(vals)
-        cum = Fraction(0)
-        for pos, i in enumerate(order):
-            cum += Fraction(counts[i])
-            if tot > 0 and 2 * cum == tot and pos + 1 < len(order) and counts[order[pos + 1]] == 0:
-                res["zero_after_half"] = True
     return res
 
 
@@ -414,8 +406,7 @@ def compare(case, io, toks, aux, rep=None):
                 for name, iv in zip(STRAND, (i_mean, i_med, i_sd, i_se)):
                     if iv is not None:
                         fail("strand-none." + name, {"impl": iv, "expected": None, "counts": base,
-                                                     "vals": vals},
-                             sig="strand-none", empty=True, has_values=has_values, stat=name)
+                                                     "vals": vals, "has_values": has_values})
             else:
                 if not core.close(i_mean, o["mean"]):
                     fail("strand-oracle.scale_mean", {"impl": i_mean, "respondents": o["mean"]})
@@ -493,8 +484,7 @@ def compare(case, io, toks, aux, rep=None):
                 if not core.close(x, exp):
                     fail(name + ".respondents", {"vector": idx, "subtotal": v["sub"], "impl": iv,
                                                  "respondent_level" + ("(squared)" if squared else ""): exp,
-                                                 "counts": v["counts"], "vals": v["vals"]},
-                         sig="vector-vs-respondents", stat=s, zero_after_half=orc["zero_after_half"])
+                                                 "counts": v["counts"], "vals": v["vals"]})
     # margins (run A: model ; run B: unchanged by display transforms)
     vals = dimvals(case)
     model_margin = {}
